@@ -667,7 +667,7 @@ def spec_fails(sc, work, tag):
     if not sc.get('c_ok') or not sc.get('ran'): return False
     return sc['out'] != sc['pout'] or bool(sc['panic']) != bool(sc['ppanic'])
 
-def shrink(sc, work, budget=40):
+def shrink(sc, work, budget=25):
     """greedy statement deletion / block flattening while the property still fails"""
     best = dict(arrs=sc['arrs'], body=sc['body'])
     n = [0]
@@ -823,7 +823,7 @@ def main(run):
     cshard = 120 if quick else 500
     coq_broken = None
     offs = list(range(0, len(scs), cshard))
-    for o, (b, log) in zip(offs, common.pmap(lambda o: coq_cases(scs[o:o + cshard], "c04_%d_%d" % (run.seed, o)), offs, workers=4)):
+    for o, (b, log) in zip(offs, common.pmap(lambda o: coq_cases(scs[o:o + cshard], "c04_%d" % o), offs, workers=4)):
         if b is None:
             coq_broken = log
             break
@@ -880,8 +880,8 @@ def main(run):
     if any(spec_bad(scs[j]) for j in (0, 1, 2)):
         j = [j for j in (0, 1, 2) if spec_bad(scs[j])][0]
         gate_reads = run._match_known(K1) is not None
-        run.violation(K1, "fixed-array read with a variable index uses the last constant assigned in source order, not the run-time value: "
-                      "expected %s%s, got %s" % (scs[j]['pout'], " then panic" if scs[j]['ppanic'] else "", obs(scs[j])),
+        run.violation(K1, "canonical probe: fixed-array read with a variable index (reassigned after the use / loop-carried) does not follow "
+                      "the run-time value of the index: expected %s%s, got %s" % (scs[j]['pout'], " then panic" if scs[j]['ppanic'] else "", obs(scs[j])),
                       {"program": r_file([scs[j]]), "expected_stdout": scs[j]['pout'], "expected_panic": scs[j]['ppanic'],
                        "observed": obs(scs[j]), "theorem": "C04_stale_const_index_refuted"})
     if spec_bad(scs[5]):
@@ -916,7 +916,7 @@ def main(run):
         cv = bad.get(i, 0)
         if pybad & 4 or cv & 4:
             nspec += 1
-            if nspec <= 6:
+            if nspec <= 4:
                 report_spec(i, sc)
             continue
         if pybad & 8:
